@@ -807,6 +807,22 @@ func cloneCase(c Case) Case {
 // genCase draws one case. kind selects the stream.
 func genCase(r *hx.Rand, idx int) Case {
 	spec := genSchema(r)
+	switch k := r.Intn(100); {
+	case k < 8:
+		spec.Dirs = "none"
+	case k < 15:
+		spec.Dirs = "skip"
+	case k < 22:
+		spec.Dirs = "include"
+	case k < 30:
+		spec.Dirs = "custom"
+	}
+	switch k := r.Intn(10); {
+	case k < 2:
+		spec.DescMode = 1
+	case k < 5:
+		spec.DescMode = 2
+	}
 	c := Case{Schema: spec, Seed: r.Uint64(), Worlds: 4}
 	nDocs := 1
 	if r.Chance(1, 3) {
@@ -825,8 +841,25 @@ func genCase(r *hx.Rand, idx int) Case {
 		c.Docs = append(c.Docs, genDoc(r, &c.Schema, fmt.Sprintf("Q%d", i+1), fmt.Sprintf("D%d", i+1), &fragSeq, collide))
 		collide = ""
 	}
+	// directives on selections (no-op values, so the response is complete); an undeclared one makes the
+	// document invalid for the server — and must make it invalid for the tool
+	undeclared := false
+	if r.Chance(2, 5) || stream < 4 {
+		allowUndeclared := stream >= 8 && r.Chance(1, 4)
+		for i := range c.Docs {
+			for j := range c.Docs[i].Defs {
+				if attachDirectives(r, &c.Schema, c.Docs[i].Defs[j].Sels, stream < 4, allowUndeclared) {
+					undeclared = true
+				}
+			}
+		}
+	}
 	c.Label = "valid"
+	if undeclared {
+		c.Label = "invalid:undeclared-directive"
+	}
 	switch {
+	case undeclared:
 	case stream < 4:
 		c.Label = "collide-dup-cond"
 	case stream < 8:
@@ -868,4 +901,56 @@ func genCase(r *hx.Rand, idx int) Case {
 		}
 	}
 	return c
+}
+
+func declaredDirectiveUses(spec *SchemaSpec) (declared, undeclared []string) {
+	has := map[string]bool{"skip": true, "include": true}
+	switch spec.Dirs {
+	case "none":
+		has = map[string]bool{}
+	case "skip":
+		has = map[string]bool{"skip": true}
+	case "include":
+		has = map[string]bool{"include": true}
+	case "custom":
+		has["tag"] = true
+	}
+	for _, d := range []struct{ name, use string }{{"include", "@include(if: true)"}, {"skip", "@skip(if: false)"}, {"tag", "@tag"}} {
+		if has[d.name] {
+			declared = append(declared, d.use)
+		} else {
+			undeclared = append(undeclared, d.use)
+		}
+	}
+	return
+}
+
+// attachDirectives puts directives on some selections (fields, inline fragments, spreads). Declared
+// ones mostly; when forceInline is set (the repeated-type-condition stream) inline fragments get one
+// with probability 1/2. Reports whether an undeclared directive was used.
+func attachDirectives(r *hx.Rand, spec *SchemaSpec, sels []Sel, forceInline, allowUndeclared bool) bool {
+	declared, undecl := declaredDirectiveUses(spec)
+	used := false
+	var walk func(ss []Sel)
+	walk = func(ss []Sel) {
+		for i := range ss {
+			p := 8
+			if forceInline && ss[i].Kind == "i" {
+				p = 2
+			}
+			if r.Chance(1, p) {
+				pool := declared
+				if allowUndeclared && len(undecl) > 0 && (len(declared) == 0 || r.Chance(1, 4)) {
+					pool = undecl
+					used = true
+				}
+				if len(pool) > 0 {
+					ss[i].Dir = hx.Pick(r, pool)
+				}
+			}
+			walk(ss[i].Sels)
+		}
+	}
+	walk(sels)
+	return used
 }
